@@ -384,6 +384,20 @@ def r16_2(ctx, rc):
                              'key %r is written but never read' % k.value,
                              prog.loc(Rd, Rd.node), key=key)
             continue
+        # the attribute is written verbatim (or through a listed codec such
+        # as list(<set>)), never filtered or transformed
+        plain = isinstance(vs, ast.Attribute) or (
+            isinstance(vs, ast.Call) and isinstance(vs.func, ast.Name) and
+            vs.func.id in ('list', 'sorted', 'dict', 'tuple') and
+            len(vs.args) == 1 and isinstance(vs.args[0], ast.Attribute))
+        if not plain:
+            rc.violation('cache-key-transformed | ' + k.value,
+                         'key %r is not written from the attribute %s '
+                         'verbatim (%s): entries can be dropped or altered '
+                         'on the way to the file' % (
+                             k.value, attr, ast.unparse(vs)[:60]),
+                         prog.loc(W, v), key=key)
+            continue
         # which constructor parameter is stored in that attribute
         ps = [p for p, f in pfield.items() if f == attr]
         if not ps or ps[0] not in binding:
@@ -403,6 +417,42 @@ def r16_2(ctx, rc):
             rc.ok({'key': k.value, 'attr': attr, 'param': ps[0]}, key=key)
     if n < 6:
         raise AnalysisError('only %d top-level keys' % n)
+    # reader side: every constructor parameter restored from key k must have
+    # been written from the attribute it is stored in, verbatim
+    wvals = {k.value: v for k, v in zip(d.keys, d.values)
+             if isinstance(k, ast.Constant)}
+    for p, a in binding.items():
+        if isinstance(a, list):
+            continue
+        rk = [r[0] for r in _key_reads(a)]
+        if not rk:
+            continue
+        attr = pfield.get(p)
+        key = 'restored attribute %s <- key %s' % (attr, rk[0])
+        v = wvals.get(rk[0])
+        if v is None:
+            rc.violation('cache-key | ' + rk[0],
+                         'the reader restores %s from key %r which the '
+                         'writer never emits' % (attr, rk[0]),
+                         prog.loc(Rd, ctor_calls[0]), key=key)
+            continue
+        vs = ctx.H.subst(v, W, cn)
+        core = vs.args[0] if (isinstance(vs, ast.Call) and isinstance(
+            vs.func, ast.Name) and vs.func.id in (
+                'list', 'sorted', 'dict', 'tuple', 'set') and
+            len(vs.args) == 1) else vs
+        if isinstance(core, ast.Attribute) and core.attr == attr and \
+                isinstance(core.value, ast.Name) and \
+                core.value.id == W.self_name:
+            rc.ok({'key': rk[0], 'written_from': 'self.' + attr}, key=key)
+        else:
+            rc.violation(
+                'cache-key-transformed | ' + rk[0],
+                'key %r is restored into %s but is not written from '
+                'self.%s verbatim (written from %s): entries can be '
+                'dropped or altered on the way to the file' % (
+                    rk[0], attr, attr, ast.unparse(v)[:50]),
+                prog.loc(W, v), key=key)
 
 
 def r16_3(ctx, rc):
@@ -418,8 +468,15 @@ def r16_3(ctx, rc):
                 if g in ('gzip.open', 'builtins.open'):
                     modes[role] = (g, open_mode(call), call, f)
     key = 'gzip open modes'
-    if 'w' not in modes or 'r' not in modes:
-        raise AnalysisError('open calls of the cache codec not found')
+    if 'w' not in modes:
+        raise AnalysisError('the cache writer opens no file')
+    if 'r' not in modes:
+        rc.violation('codec-open | write/read',
+                     'the cache is written with %s(%r) but the reader does '
+                     'not open it with the inverse codec (a truncated or '
+                     'foreign file may be accepted)' % (
+                         modes['w'][0], modes['w'][1]), Rd.file, key=key)
+        return
     gw, mw, cw, _ = modes['w']
     gr, mr, cr, _ = modes['r']
     if gw != gr or mw is None or mr is None or not mw.startswith('w') or \
@@ -429,8 +486,19 @@ def r16_3(ctx, rc):
                      'the cache is written with %s(%r) but read with '
                      '%s(%r)' % (gw, mw, gr, mr), prog.loc(W, cw), key=key)
     else:
-        rc.ok({'write': '%s %s' % (gw, mw), 'read': '%s %s' % (gr, mr)},
-              key=key)
+        kw_w = {k.arg: ast.unparse(k.value) for k in cw.keywords
+                if k.arg in ('encoding', 'errors', 'newline')}
+        kw_r = {k.arg: ast.unparse(k.value) for k in cr.keywords
+                if k.arg in ('encoding', 'errors', 'newline')}
+        if kw_w != kw_r:
+            rc.violation('codec-open-options | write/read',
+                         'the cache is written with text options %s but read '
+                         'with %s: some strings that were written cannot be '
+                         'read back' % (kw_w, kw_r), prog.loc(W, cw),
+                         key=key)
+        else:
+            rc.ok({'write': '%s %s' % (gw, mw), 'read': '%s %s' % (gr, mr),
+                   'options': kw_w}, key=key)
     dumps = [c for c in prog.calls_in(W)
              if 'json.dumps' in prog.resolve_call(c, W) or
              'json.dump' in prog.resolve_call(c, W)]
